@@ -2,7 +2,7 @@
     stay Coq datatypes; no Extract Constant). Run coqc from the ocaml/ directory. *)
 Require Extraction.
 Require Import ExtrOcamlBasic.
-From IAVL Require Import Bytes Varint Sha256 Tree VMap MTree KV Iter ExportImport Codec Diff Store Ics23 VersionFacts PruneAlgo FastLife Discover Crash DbImage Memo NodeCache Flusher PhysCommit Legacy LegacyStore V2 V2Orphans.
+From IAVL Require Import Bytes Varint Sha256 Tree VMap MTree KV Iter ExportImport Codec Diff Store Ics23 VersionFacts PruneAlgo FastLife Discover Crash DbImage Memo NodeCache Flusher PhysCommit Legacy LegacyStore V2 V2Orphans V2Leaves.
 
 Definition m_step := MTree.step sha256.
 Definition m_init := MTree.init_state.
@@ -21,6 +21,7 @@ Definition memo_step_sha := Memo.memo_step sha256.
 Definition commit_bops_sha := PhysCommit.commit_bops sha256.
 Definition legacy_history_sha := LegacyStore.legacy_history sha256.
 Definition os_run_sha := V2Orphans.os_run sha256 false false.
+Definition ls_run_sha := V2Leaves.ls_run sha256 false.
 Definition os_step_sha := V2Orphans.os_step sha256 false false.
 Definition os_apply_all_code := V2Orphans.os_apply_all false.
 Definition prune_legacy_sha := LegacyStore.prune_legacy sha256.
@@ -43,4 +44,4 @@ Extraction "model.ml" m_step m_init bcmp sha256 uvarint_enc uvarint_dec varint_e
   memo_step_sha Memo.memo_init
   NodeCache.coherentb NodeCache.stale_keys Flusher.segs Flusher.fl_batches Flusher.cut_positions commit_bops_sha legacy_history_sha prune_legacy_sha prune_new_version_sha
   LegacyStore.rollback_legacy LegacyStore.legacy_fuel LegacyStore.legacy_latest
-  os_run_sha os_step_sha os_apply_all_code V2Orphans.ostate_empty.
+  os_run_sha os_step_sha os_apply_all_code V2Orphans.ostate_empty ls_run_sha V2Leaves.ls_empty.
